@@ -23,7 +23,7 @@ KNOWN = set(H.P('known', ()))
 FUNCTIONS_ENCODED = ['yaql.language.factory.YaqlEngine.__call__', 'ply.lex.Lexer.token/input/clone',
                      'ply.yacc.LRParser.parse (parseopt_notrack)', 'yaql.language.lexer.Lexer token actions',
                      'yaql.language.parser.Parser rule actions and p_error', 'yaql.eval (module-level caches)']
-BOUNDS = {'quick': 'pool of 17 texts (every token kind, every grammar rule family, lexical and grammar errors, empty text); '
+BOUNDS = {'quick': 'pool of 18 texts (every token kind, every grammar rule family, lexical and grammar errors, empty text); '
                    'one interference point k in [0,8]; interfering lexer state: lexdata symbolic str len<=3, lexpos in '
                    '[0,len+1], lineno arbitrary; parser stacks replaced; default engine',
           'thorough': 'pool of 22 texts; default, legacy and customised-operator engines; two interference points'}
@@ -39,7 +39,7 @@ EXPLANATION = ('Rely/guarantee by havoc: the engine-wide lexer and parser object
 TECHNIQUE = 'bounded symbolic execution (CrossHair+z3) with symbolic interference (havoc) at token-fetch points; replay with real threads under a hand-off scheduler'
 
 POOL_Q = ['1 + 2 * 3', '$.a.b(1, x => 2)', '[1, 2][0]', '{a => b}', 'not true and $x', "'a\\n' + \"b\"", '`v` in $',
-          'f(, 1)', '$x?.y -> 1.5 mod -2', 'a +', "'x' )", '', 'a # b', '[1,', "'a b'", "'a  b'", '`a\tb` + `a b`']
+          'f(, 1)', '$x?.y -> 1.5 mod -2', 'a +', "'x' )", '', 'a # b', '[1,', "'a b'", "'a  b'", '`a\tb` + `a b`', '$.a = 1 and $b != 2']
 POOL_T = POOL_Q + ['$a >= +3 or null', 'a.b.c', 'f(x => 1)(2)', '1 ~ 2', '(1', '$ =~ x !~ y', '{a => 1, b => [2]}.a', 'x[1][2]{3}']
 ENGINE_KIND = H.P('engine', 'default')
 
@@ -226,7 +226,7 @@ if not H.P('driver'):
 
 def isolated_g(i: int, k: int, h: int) -> bool:
     """
-    pre: H.P('ilo', 0) <= i < min(len(POOL), H.P('ihi', 99)) and 0 <= k <= 8 and 0 <= h < len(POOL)
+    pre: H.P('ilo', 0) <= i < min(len(POOL), H.P('ihi', 99)) and 0 <= k <= H.P('kmax', 8) and 0 <= h < min(len(POOL), H.P('hmax', 99))
     post: _
     """
     # at fetch k every attribute a parse was seen to write is overwritten with the value another text's parse left there
@@ -236,9 +236,10 @@ def isolated_g(i: int, k: int, h: int) -> bool:
 
     def havoc():
         with H.NoTracing():
-            for key in GKEYS:
+            for n, key in enumerate(GKEYS):
                 vals = GSET[key]
-                ROOTS[key[0]][key[1]] = vals[hh % len(vals)]
+                # torn updates: every written attribute takes the value left by a (possibly different) other parse
+                ROOTS[key[0]][key[1]] = vals[(hh + (n if H.P('torn') else 0)) % len(vals)]
 
     def token(self):
         if count[0] == k:
@@ -269,6 +270,54 @@ def history(i: int, j: int) -> bool:
         outcome(ENG2, tj)
         ok = outcome(ENG2, ti) == FRESH_BY_TEXT[ti]
     return H.done(ok)
+
+
+def other_engines(i: int, e: int) -> bool:
+    """
+    pre: 0 <= i < len(POOL) and 0 <= e < len(OTHER_FACTORIES)
+    post: _
+    """
+    # the tree depends on the text and on THIS engine's operator table only: engines created later from other factories
+    # (legacy table, custom operators, other aliases, delegates) must not change what this engine returns
+    text, ei = POOL[i], POSBOX[e][0]
+    with H.NoTracing():
+        eng = make_engine(ENGINE_KIND)
+        before = outcome(eng, text)
+        other = OTHER_FACTORIES[ei]()
+        outcome(other, '1 + 1')
+        ok = before == FRESH[i] and outcome(eng, text) == FRESH[i]
+    return H.done(ok)
+
+
+def _other_factories():
+    def legacy():
+        return yaql_legacy.YaqlFactory().create()
+
+    def custom():
+        return make_engine('custom')
+
+    def realiased():
+        f = yaql.YaqlFactory()
+        ops = []
+        for rec in f.operators:
+            if rec and rec[0] == '=':
+                ops.append(('=', rec[1], 'same'))
+            elif rec and rec[0] == '!=':
+                ops.append(('!=', rec[1]))
+            else:
+                ops.append(rec)
+        f.operators = ops
+        return f.create()
+
+    def delegates():
+        return yaql.YaqlFactory(allow_delegates=True).create()
+
+    def no_keyword_op():
+        return yaql.YaqlFactory(keyword_operator=None).create()
+    return [legacy, custom, realiased, delegates, no_keyword_op]
+
+
+OTHER_FACTORIES = _other_factories()
 
 
 def eval_cache(i: int, j: int) -> bool:
@@ -319,11 +368,17 @@ def conditions(tier, seed):
                     'bounds': 'ordered pairs of the %d pool texts parsed one after the other on one long-lived engine '
                               '(selectors; each path one concrete history)' % n})
         for lo in range(0, n, 3):
-            out.append({'name': 'isolated_g[%s,pool=%s,texts=%d-%d]' % (eng, pool, lo, min(n, lo + 3) - 1), 'func': 'isolated_g',
-                        'timeout': 300, 'param': {'engine': eng, 'pool': pool, 'ilo': lo, 'ihi': lo + 3},
+          for torn in ((False, True) if (tier != 'quick' or lo == 0) else (False,)):
+            out.append({'name': 'isolated_g[%s,pool=%s,texts=%d-%d%s]' % (eng, pool, lo, min(n, lo + 3) - 1, ',torn' if torn else ''),
+                        'func': 'isolated_g', 'timeout': 300,
+                        'param': dict({'engine': eng, 'pool': pool, 'ilo': lo, 'ihi': lo + 3, 'torn': torn},
+                                      **({'kmax': 4, 'hmax': 6} if tier == 'quick' else {})),
                         'bounds': 'at fetch k in [0,8] every attribute of the engine/lexer/parser/rule objects/yaql modules '
                                   'that a parse was observed to write is replaced by the value left by the parse of pool '
                                   'text h (symbolic)'})
+    out.append({'name': 'other_engines', 'func': 'other_engines', 'timeout': 300, 'param': {'pool': 'q'},
+                'bounds': 'every pool text x 5 other factories (legacy, custom operator, re-aliased = and !=, delegates, no keyword '
+                          'operator) created after the engine under test (selectors; each path one concrete history)'})
     out.append({'name': 'eval_cache', 'func': 'eval_cache', 'timeout': 200, 'param': {'pool': 'q'},
                 'bounds': 'yaql.eval on ordered pairs of pool texts (selectors; each path one concrete history)'})
     return out
@@ -391,6 +446,37 @@ def threaded(engine, text_a, text_b, k, j, text_c=None, jc=0):
         lex.Lexer.token = _orig_token
 
 
+def stress(kind, pool, seconds=4.0, nthreads=4):
+    """free-running threads on one engine, sys.setswitchinterval(1e-6); -> description of a wrong result or None"""
+    import sys
+    import time
+    fresh = {t: outcome(make_engine(kind), t) for t in pool}
+    eng = make_engine(kind)
+    bad = []
+    stop = time.time() + seconds
+    old = sys.getswitchinterval()
+    sys.setswitchinterval(1e-6)
+
+    def worker(k):
+        n = 0
+        while time.time() < stop and not bad:
+            t = pool[(k * 7 + n) % len(pool)] if n % 3 else pool[n % 4]
+            got = outcome(eng, t)
+            if got != fresh[t]:
+                bad.append('free-running threads (switch interval 1 us) on one engine: engine(%r) returned %r, alone %r' % (
+                    t, got, fresh[t]))
+            n += 1
+    try:
+        ts = [threading.Thread(target=worker, args=(k,)) for k in range(nthreads)]
+        for t in ts:
+            t.start()
+        for t in ts:
+            t.join(seconds + 10)
+    finally:
+        sys.setswitchinterval(old)
+    return bad[0] if bad else None
+
+
 def replay(cond, args):
     par = cond.get('param') or {}
     if cond['func'] == 'eval_cache':
@@ -398,6 +484,11 @@ def replay(cond, args):
         return {'reproduced': not ok, 'key': 'C01/eval-cache', 'what': 'yaql.eval caches a wrong tree for %r' % (args,)}
     kind = par.get('engine', 'default')
     pool = POOL_T if par.get('pool') == 't' else POOL_Q
+    if cond['func'] == 'other_engines':
+        ok = other_engines(**args)
+        return {'reproduced': not ok, 'key': 'C01/other-engine-changes-parse',
+                'what': 'engine(%r) changes after another engine was created from factory #%d (%s)' % (
+                    pool[args['i']], args['e'], OTHER_FACTORIES[args['e']].__name__)}
     if cond['func'] == 'history':
         eng = make_engine(kind)
         tj, ti = pool[args['j']], pool[args['i']]
@@ -448,4 +539,9 @@ def replay(cond, args):
                                                          'to completion' if j >= 40 else '%d steps' % j,
                                                          '' if tc is None else 'C runs %d steps, ' % jc,
                                                          res.get('A'), fresh, res.get('B'), fresh_b)}
+    # 3. free-running threads under a microsecond switch interval (the property's last quantifier clause): catches
+    #    interference at points finer than token fetches
+    bad = stress(kind, pool)
+    if bad:
+        return {'reproduced': True, 'key': 'C01/free-running-interference', 'what': bad}
     return {'reproduced': False, 'note': 'no sequential history or two-thread schedule reproduces the havoc counterexample'}
